@@ -205,3 +205,8 @@ def check(ctx: Ctx) -> None:
     # ... also when a callback fails after its channel object was dropped
     from .C07 import check_callback_failure_closes
     check_callback_failure_closes(ctx, "C18.i")
+
+    # a channel sent through another channel arrives: the carrier's queue->callback hand-over is atomic w.r.t. the receiver thread
+    from ..util import LockSets as _LS
+    from .C10 import check_handover_lock
+    check_handover_lock(ctx, _LS(repo), "C18.j")
